@@ -8,7 +8,8 @@
     ingredient of it (character data, attribute values, character references, CDATA text); the tree level is decided
     by the document-level oracle of checks/C12.py on the real library. *)
 From XV Require Import C05.Spec05 C05.Model05 C12.Spec12 C12.Model12
-  C12.Proofs12a C12.Proofs12b C12.Proofs12c C12.Proofs12d C12.Proofs12e C12.Proofs12f C12.ModelNs12 C12.Proofs12g C12.SpecTree12 C12.ProofsTree12e C12.ProofsTree12f C12.ProofsTree12g C12.ProofsTree12h C12.ModelNsSer12 C12.ProofsNsSer12 C12.ModelSeq12.
+  C12.Proofs12a C12.Proofs12b C12.Proofs12c C12.Proofs12d C12.Proofs12e C12.Proofs12f C12.ModelNs12 C12.Proofs12g C12.SpecTree12 C12.ProofsTree12e C12.ProofsTree12f C12.ProofsTree12g C12.ProofsTree12h C12.ModelNsSer12 C12.ProofsNsSer12 C12.ModelSeq12
+  C12.ModelDt12 C12.SpecDt12 C12.ProofsDt12.
 Local Open Scope N_scope.
 
 (** T12_escape_exact: the bytes of formatBuf are the transcoding of a character-wise map of the input ... *)
@@ -358,3 +359,51 @@ Example T12_nonvacuous_errors :
   ser_doc (mk_cfg EUtf8 false true false true []) [Elem [114] [] [CData [1]]] = Err S_InvalidChar /\
   ser_doc (mk_cfg EUtf8 false false false true []) [Elem [114] [] [CData [93; 93; 62]]] = Err S_NestedCDATA.
 Proof. vm_compute. repeat split; reflexivity. Qed.
+
+(* ------------------------------------------------------------------------------------------- *)
+(** * DocumentType nodes (ModelDt12.v, SpecDt12.v) *)
+
+(** T12_doctype_roundtrip: whenever the repaired serializer (fixes/C12-doctype-literals.patch) writes a DocumentType
+    -- any name that is a name, any public and system identifier it accepts, an internal subset without ']' (the
+    subset is an opaque string here) -- in any configuration, the declaration scanner of the specification reads the
+    same name, public identifier, system identifier and subset back, whatever follows the declaration. *)
+Theorem T12_doctype_roundtrip : forall cf d out rest,
+  ser_doctype cf true d = Ok out -> dt_expressible d = true -> parse_doctype (out ++ rest) = Some (d, rest).
+Proof. exact doctype_roundtrip. Qed.
+Print Assumptions T12_doctype_roundtrip.
+
+Example T12_doctype_nonvacuous :
+  ser_doctype cf_utf8 true (mk_dt [97] [45; 47; 47; 39] [120; 34; 121] [60; 33; 45; 45; 45; 45; 62]) =
+    Ok [60; 33; 68; 79; 67; 84; 89; 80; 69; 32; 97; 32; 80; 85; 66; 76; 73; 67; 32; 34; 45; 47; 47; 39; 34; 32; 39; 120; 34;
+        121; 39; 32; 91; 60; 33; 45; 45; 45; 45; 62; 93; 62] /\
+  dt_expressible (mk_dt [97] [45; 47; 47; 39] [120; 34; 121] [60; 33; 45; 45; 45; 45; 62]) = true.
+Proof. vm_compute. split; reflexivity. Qed.
+
+(** the code as found (F56): a system identifier that contains a double quote -- legal, a parser reports it for
+    <!DOCTYPE a SYSTEM (the id x, double quote, y)> -- is written between double quotes; the declaration does not read back *)
+Theorem T12_doctype_old_refuted :
+  exists d out, dt_expressible d = true /\ ser_doctype cf_utf8 false d = Ok out /\ parse_doctype out = None /\
+                (exists out', ser_doctype cf_utf8 true d = Ok out' /\ parse_doctype out' = Some (d, [])).
+Proof. exact doctype_old_refuted. Qed.
+Print Assumptions T12_doctype_old_refuted.
+
+(** T12_doctype_unserialisable: identifiers that cannot be written as literals (system identifier with both kinds of
+    quote or with a character that is no XML Char, public identifier with a character that is no PubidChar, public
+    identifier without system identifier) and unrepresentable characters anywhere in the declaration are refused *)
+Theorem T12_doctype_unserialisable : forall cf d, dt_unquotable cf d -> exists e, ser_doctype cf true d = Err e.
+Proof. exact doctype_unquotable_refused. Qed.
+Print Assumptions T12_doctype_unserialisable.
+
+(** * the encoding write() uses: LSOutput.encoding, Document.inputEncoding, Document.xmlEncoding, UTF-8 -- in this
+      order, an empty string counting as absent; writeToString: always UTF-16 *)
+Theorem T12_encoding_order : forall o i x,
+  encoding_used false o i x =
+    match o with _ :: _ => o | [] => match i with _ :: _ => i | [] => match x with _ :: _ => x | [] => utf8_name end end end.
+Proof. exact encoding_order. Qed.
+Print Assumptions T12_encoding_order.
+Theorem T12_encoding_to_string : forall o i x, encoding_used true o i x = utf16_name.
+Proof. exact encoding_to_string. Qed.
+Print Assumptions T12_encoding_to_string.
+Theorem T12_encoding_never_empty : forall ts o i x, encoding_used ts o i x <> [].
+Proof. exact encoding_never_empty. Qed.
+Print Assumptions T12_encoding_never_empty.
